@@ -26,6 +26,17 @@ TEXT = {
     'C18': ('exploration', 'E1 tcpcl_pair + E6 udpcl_pair', 'seeded interleaving of D-Bus calls with protocol progress; marshalling model + sequential queue/idle model',
             'Every signal emission and method return is marshalled against its declared signature by a model of dbus-python checked against the real '
             'binding; queue, pop and idle answers are compared with a sequential model at every call.', '5/C18'),
+    'C07': ('exploration', 'E2 tcpcl_stream', 'seeded + windowed-exhaustive search over cut patterns of the TCP stream; reference decode of every delivered prefix',
+            'One real agent reads a legal peer stream produced by the independent encoder; the variable is where the stream is cut into socket reads '
+            '(single cuts, dribble, message boundaries +-1, random, all patterns over a 10-octet window). After each read the handled messages must '
+            'equal the reference decode of the delivered prefix and the receive buffer the undecoded tail.', '5/C07'),
+    'C15': ('exploration', 'E4 tcpcl_tls', 'seeded search over the configuration x certificate table with handshake-failure fault; independent policy function',
+            'Two real agents over the TLS stub with real X.509 certificates; per endpoint the outcome predicted by ref/tls_policy.py (written from the '
+            'statement) is compared with wire, state signals, is_secure() and authn fields; decision-cell coverage is reported.', '5/C15'),
+    'C17': ('exploration', 'E3 tcpcl_adversary', 'seeded search over state-hostile peer scripts; no-escape / answered / no-mixing / own-transfers oracles',
+            'One real agent with own transfers faces a peer that sends well-formed messages in the wrong state; checks that no callback escapes with an '
+            'exception, listed message classes draw MSG_REJECT / SESS_TERM / close, no mixed data is delivered, own transfers complete and a later '
+            'well-formed transfer is still processed.', '5/C17'),
 }
 NOTE = ('Trusted base: the simulator models of GLib dispatch, kernel TCP/UDP sockets, D-Bus and TLS (dsim/*, each small and self-tested), '
         'the independent reference codecs under ref/, and shims for third-party modules missing in the sandbox (listed per evidence file). '
@@ -73,6 +84,10 @@ def main():
         engines=[
             dict(name='E1 tcpcl_pair', path='scenarios/tcpcl_pair.py', serves_properties=['C01', 'C04', 'C09', 'C14', 'C18'],
                  kind_free_text='two real tcpcl agents over simulated TCP + scripted D-Bus users'),
+            dict(name='E2/E3 tcpcl_peer', path='scenarios/tcpcl_peer.py', serves_properties=['C07', 'C17'],
+                 kind_free_text='one real tcpcl agent facing a harness-driven peer built on the independent RFC 9174 codec'),
+            dict(name='E4 tcpcl_tls', path='scenarios/tcpcl_tls.py', serves_properties=['C15'],
+                 kind_free_text='E1 plus TLS stub and real X.509 certificate fixtures'),
         ],
         checks=checks,
         not_applicable=na,
